@@ -74,6 +74,16 @@ pub fn run(rep: &mut Rep) {
             }
         }
     }
+    // real threads: every result is checked against the acknowledgement generated for that very request
+    let mt: Vec<(usize, usize)> = if rep.quick() { vec![(4, 6000), (8, 4000), (2, 6000), (6, 4000)] } else { vec![(4, 40_000), (8, 40_000), (8, 30_000), (6, 50_000), (2, 60_000), (3, 50_000), (5, 40_000), (7, 30_000)] };
+    rep.note("multi-thread: 2-8 OS threads with handle clones issuing batches of 1-12 concurrent operations; the broker thread answers with random delay and reordering, every acknowledgement carries the request's own topic as reason string and a reason code derived from it; each client verifies it got exactly that");
+    for (k, (threads, ops)) in mt.iter().enumerate() {
+        let id = format!("mt:{k}:{threads}:{ops}");
+        idx += 1;
+        if rep.take(idx, &id) {
+            super::mt::mt_stress(rep, &id, *threads, *ops, rep.seed.wrapping_mul(131).wrapping_add(k as u64), true, "C05");
+        }
+    }
     let walks = if rep.quick() { 200 } else { 3000 };
     let mut wa = a.clone();
     wa.max_ops = 400;
